@@ -107,12 +107,16 @@ structure Plan where
   nout : Nat
 
 /-- `populate_unicodes_to_retain`: (unicode_to_new_gid_list with OLD gids, requested gids added to glyphset_gsub).
-The final `sort()` is the identity on these ascending-by-codepoint lists. -/
+The final `sort()` is the identity on these ascending-by-codepoint lists.  Character map entries that
+name a glyph `≥ font_num_glyphs` are skipped (fix 1818a8f). -/
 def unicodesToRetain (p : PlanIn) : List (Nat × Nat) × List Nat :=
   if p.gids.isEmpty ∧ p.unicodes.length < p.num then
-    (p.unicodes.filterMap (fun cp => (lookupNat cp p.cmap).map (fun g => (cp, g))), [])
+    (p.unicodes.filterMap (fun cp =>
+      match lookupNat cp p.cmap with
+      | some g => if g < p.num then some (cp, g) else none
+      | none => none), [])
   else
-    (p.cmap.filter (fun cg => p.gids.contains cg.2 || p.unicodes.contains cg.1),
+    (p.cmap.filter (fun cg => (p.gids.contains cg.2 || p.unicodes.contains cg.1) && decide (cg.2 < p.num)),
      p.gids.filter (· < p.num))
 
 /-- `create_old_gid_to_new_gid_map`: (new_to_old_gid_list, num_output_glyphs) -/
@@ -132,18 +136,28 @@ def oldToNew (n2o : List (Nat × Nat)) (old : Nat) : Option Nat :=
 /-- `plan.reverse_glyph_map.get(new)` -/
 def newToOld (n2o : List (Nat × Nat)) (new : Nat) : Option Nat := lookupNat new n2o
 
+/-- `glyphset_gsub` after `populate_unicodes_to_retain`, `.notdef`, the cmap closure (format 14 glyphs are
+an input) and `remove_invalid_gids` -/
+def planGsub (p : PlanIn) : List Nat :=
+  sortedBelow p.num (0 :: ((unicodesToRetain p).2 ++ (unicodesToRetain p).1.map (·.2) ++ p.extraGsub))
+
+/-- `glyphset_colred` (COLR closure glyphs are an input) -/
+def planColred (p : PlanIn) : List Nat := sortedBelow p.num (planGsub p ++ p.extraColred)
+
+/-- `operation_count = glyphset_gsub.len() * MAX_COMPOSITE_OPERATIONS_PER_GLYPH` -/
+def planBudget (p : PlanIn) : Int := ((planGsub p).length * MAX_COMPOSITE_OPERATIONS_PER_GLYPH : Nat)
+
+/-- `glyphset`: composite closure of every glyph of `glyphset_colred`, then `remove_invalid_gids` -/
+def planGlyphset (p : PlanIn) : List Nat :=
+  sortedBelow p.num (closureAll p.comps (planBudget p) (planColred p) [])
+
 /-- `Plan::new` up to the glyph map; `none` = the `unwrap()` on `glyph_map.get(old_gid)` panics -/
 def makePlan (p : PlanIn) : Option Plan :=
-  let (u2gOld, reqGids) := unicodesToRetain p
-  let gsubRaw := 0 :: (reqGids ++ u2gOld.map (·.2) ++ p.extraGsub)
-  let gsub := sortedBelow p.num gsubRaw
-  let colred := sortedBelow p.num (gsub ++ p.extraColred)
-  let budget : Int := (gsub.length * MAX_COMPOSITE_OPERATIONS_PER_GLYPH : Nat)
-  let glyphset := sortedBelow p.num (closureAll p.comps budget colred [])
-  let (n2o, nout) := gidMap p.flags glyphset
-  match u2gOld.mapM (fun cg => (oldToNew n2o cg.2).map (fun n => (cg.1, n))) with
+  let gm := gidMap p.flags (planGlyphset p)
+  match (unicodesToRetain p).1.mapM (fun cg => (oldToNew gm.1 cg.2).map (fun n => (cg.1, n))) with
   | none => none
-  | some u2g => some { gsub, colred, glyphset, n2o, u2g, nout }
+  | some u2g => some { gsub := planGsub p, colred := planColred p, glyphset := planGlyphset p,
+                       n2o := gm.1, u2g, nout := gm.2 }
 
 /-! ## trim_simple_glyph_padding (glyf_loca.rs) -/
 
@@ -190,8 +204,7 @@ deriving Repr, DecidableEq
 def subsetSimple (flags : Nat) (d : Bytes) (nc : Nat) : GlyphRes :=
   if nc = 0 then .bytes [] else
   let lastEnd := u16At d (10 + 2 * (nc - 1))
-  -- `num_coords.get() + 1` in u16
-  if lastEnd = 0xFFFF then .trap else
+  -- `num_coords.get() as u32 + 1` (fix 60c2089: was u16)
   let numCoords := lastEnd + 1
   let headerLen := 10 + 2 * nc + 2
   let il := u16At d (headerLen - 2)
